@@ -120,7 +120,14 @@ fn boundary_values(rng: &mut Rng, current: Option<u128>) -> String {
     rng.pick(&pool).clone()
 }
 
-const HOSTILE_IDENTS: [&str; 22] = [
+/// Letters whose upper-/lower-case forms are other letters, several letters, or nothing that
+/// is allowed in an identifier.
+const CASE_SPECIAL: [&str; 12] = [
+    "\u{19b}", "\u{264}", "\u{df}", "\u{149}", "\u{1f0}", "\u{fb01}", "\u{131}", "\u{130}", "\u{1c6}", "\u{1fb3}", "\u{2177}", "\u{3c2}",
+];
+
+const HOSTILE_IDENTS: [&str; 30] = [
+    "\u{19b}", "\u{264}", "x\u{df}", "\u{149}a", "\u{1f0}", "\u{fb01}le", "\u{130}d", "\u{1c6}",
     "r#type", "r#fn", "r#struct", "r#self", "_", "__", "self", "Self", "crate", "super", "u32",
     "void", "vftable", "type", "unknown", "backend", "ñandú", "名前", "a1234567890123456789012345678901234567890123456789012345678901234567890123456789",
     "get", "_vfunc_0", "_field_0",
@@ -647,6 +654,17 @@ fn inheritance_lattice(rng: &mut Rng, ptr: usize, tier: Tier) -> Project {
         style: rng.next_u64(),
     };
     let with_function = rng.chance(1, 2);
+    // What things are called: plain, or letters with unusual case mappings (names end up in
+    // derived identifiers: upper-cased, prefixed, concatenated).
+    let special = rng.chance(1, 3);
+    let type_name = |rng: &mut Rng, i: usize| {
+        if special {
+            format!("{}{i}", rng.pick(&CASE_SPECIAL))
+        } else {
+            format!("L{i}")
+        }
+    };
+    let names: Vec<String> = (0..64).map(|i| type_name(rng, i)).collect();
     // How a level holds the previous one twice: as bases, as plain fields, in arrays; the whole
     // lattice packed or of alignment 1; deeper when nothing in it has a size.
     let how = rng.below(4);
@@ -659,7 +677,11 @@ fn inheritance_lattice(rng: &mut Rng, ptr: usize, tier: Tier) -> Project {
             (0..2)
                 .map(|b| Field {
                     vis: true,
-                    name: format!("b{b}"),
+                    name: if special {
+                        format!("{}{b}", rng.pick(&CASE_SPECIAL))
+                    } else {
+                        format!("b{b}")
+                    },
                     ty: match how {
                         2 => Ty::Item(i - 1).arr(1),
                         3 if b == 1 => Ty::Item(i - 1).arr(2),
@@ -673,7 +695,7 @@ fn inheritance_lattice(rng: &mut Rng, ptr: usize, tier: Tier) -> Project {
         };
         p.items.push(Item {
             module: 0,
-            name: format!("L{i}"),
+            name: names[i % names.len()].clone() + &(if i >= names.len() { format!("_{i}") } else { String::new() }),
             vis: true,
             doc: None,
             kind: ItemKind::Type {
